@@ -576,10 +576,15 @@ class BaseNode402(RemoteNode):
             # Already there, e.g. by an automatic transition of the drive
             return True
         try:
-            self.controlword = State402.TRANSITIONTABLE[(from_state, target_state)]
+            controlword = State402.TRANSITIONTABLE[(from_state, target_state)]
         except KeyError:
             raise ValueError(
                 f'Illegal state transition from {from_state} to {target_state}')
+        if controlword & State402.CW_SWITCH_ON_DISABLED:
+            # The fault reset acts on the rising edge of its bit, which may
+            # still be set from resetting an earlier fault
+            self.controlword = controlword & ~State402.CW_SWITCH_ON_DISABLED
+        self.controlword = controlword
         timeout = time.monotonic() + self.TIMEOUT_SWITCH_STATE_SINGLE
         while self.state != target_state:
             if time.monotonic() > timeout:
